@@ -11,7 +11,7 @@ import (
 
 func init() {
 	register("C03", &propCheck{
-		explain: "Decides the drain protocol's shape on every path: (R03.1) Target.Drain marks draining before it snapshots the in-flight set, uses one shared time.After(timeout) deadline, cancels hijacked entries before waiting, waits on exactly {request done, deadline}, and every exit of the wait reaches an unconditional cancel(ErrorDraining) of every snapshot entry; (R03.2) StartRequest's draining test and its registration in Target.inflight happen under one hold of inflightLock, as do all other accesses of state/inflight (lockset analysis); (R03.3) pause/stop set the gate before draining, synchronously, and all drains join (WaitGroup.Wait on every path, over lb.all, both slots); (R03.4) the drain cause maps to 504; (R03.5) no probe result moves a target out of 'draining' (typestate extracted from the stores in HealthCheckCompleted); (R03.6) disposal leaves replaced targets claimable (known finding K2).",
+		explain: "Decides the drain protocol's shape on every path: (R03.1) Target.Drain marks draining before it snapshots the in-flight set, uses one shared time.After(timeout) deadline, cancels hijacked entries before waiting, waits on exactly {request done, deadline}, and every exit of the wait reaches an unconditional cancel(ErrorDraining) of every snapshot entry; (R03.2) StartRequest's draining test and its registration in Target.inflight happen under one hold of inflightLock, as do all other accesses of state/inflight (lockset analysis); (R03.3) pause/stop set the gate before draining, synchronously, and all drains join (WaitGroup.Wait on every path, over lb.all, both slots); (R03.4) the drain cause maps to 504; (R03.5) no probe result moves a target out of 'draining' (typestate extracted from the stores in HealthCheckCompleted); (R03.6) disposal leaves replaced targets claimable (known finding K2). (R03.11) a refused claim is final: LoadBalancer.ServeHTTP claims once, not in a loop; (R03.12) the context given to a request on the request path descends from a request's context, never from Background/TODO/WithoutCancel.",
 		notDecided: []string{"elapsed time ('up to the drain timeout', 'as soon as draining begins')", "requests in the gate->claim window", "transport behaviour of cancelled upgraded connections"},
 		run:        checkC03,
 	})
